@@ -409,10 +409,32 @@ end wired
 section addrmgr
 open BHS.Model.AddrMgr BHS.Proofs.AddrMgr
 
-/-- the bookkeeping invariant (`nTried` = entries of the tried buckets, `nNew` = indexed addresses
-held by a new bucket, `refs` = number of new buckets holding the address, every indexed address is
-in a bucket) holds for the empty manager. -/
+/-- the bookkeeping invariant (`BHS.Proofs.AddrMgr.Inv`: index keys and new-bucket entries without
+duplicates; `refs` = number of new buckets holding the address; every new-bucket entry is indexed;
+tried ⇒ `refs = 0`, not tried ⇒ `refs > 0`; an address sits in at most one tried bucket, tried-bucket
+entries are indexed as tried and vice versa; `nTried` = entries of the tried buckets; `nNew` = indexed
+addresses with `refs > 0`) holds for the empty manager. -/
 theorem C18_addrmgr_invariant_init : Inv ({} : St) := inv_init
+
+/-- every indexed address is in a bucket -/
+theorem C18_addrmgr_indexed_in_bucket (s : St) (h : Inv s) :
+    ∀ e ∈ s.index, (e.2.tried = true ∧ ∃ p ∈ s.triedB, p.2 = e.1) ∨ (∃ p ∈ s.newB, p.2 = e.1) := h.inBucket
+
+/-- `updateAddress` keeps the invariant — for every address, every bucket the hash may give and either outcome of the dice. -/
+theorem C18_addrmgr_inv_add (c : Cfg) (s : St) (a b : Nat) (dice : Bool) (h : Inv s) : Inv (add c s a b dice) := inv_add c a b dice h
+
+/-- `Good` keeps the invariant — for every address and every tried bucket. -/
+theorem C18_addrmgr_inv_good (s : St) (a t : Nat) (h : Inv s) : Inv (good s a t) := inv_good a t h
+
+/-- `BanAddress` of today's code (`removeAddrFromTried` after commit 82e7a0f, then `removeAddrFromNew`) keeps the invariant. -/
+theorem C18_addrmgr_inv_ban (c : Cfg) (s : St) (a : Nat) (h : Inv s) : Inv (ban true c s a) := inv_ban c a h
+
+/-- time passing (ban expiry is read at the next `add`) keeps the invariant; `Attempt` / `Connected` do not touch the bookkeeping. -/
+theorem C18_addrmgr_inv_clock (c : Cfg) (s : St) (dt : Nat) (h : Inv s) : Inv (step c s (.clock dt)) := inv_step c (.clock dt) h
+
+/-- **Every reachable state satisfies the invariant**: all sequences of add / good / ban / clock from the empty manager,
+all bucket hashes and dice outcomes. -/
+theorem C18_addrmgr_reachable_inv (c : Cfg) (ops : List Op) : Inv (run c {} ops) := inv_run c ops {} inv_init
 
 /-- **`GetAddress` returns.** Under the invariant neither of its two `for {}` searches over random
 buckets is entered with all its buckets empty (so it ends with probability 1 and the manager's
@@ -429,6 +451,15 @@ theorem C18_addrmgr_get_returns (s : St) (h : Inv s) (coin : Bool) :
   · intro h0
     simp [h0]
 
+/-- **`GetAddress` never wedges.** After ANY history of AddAddresses / Good / BanAddress / time passing (all hashes, all dice)
+and for either value of its coin, `GetAddress` does not enter a search over empty buckets (it returns, and releases the
+manager's mutex), and it answers `nil` exactly when the manager counts no address — the connection manager keeps getting
+addresses as long as there are any. -/
+theorem C18_addrmgr_never_hangs (c : Cfg) (ops : List Op) (coin : Bool) :
+    getAddress (run c {} ops) coin ≠ .hang ∧
+    (getAddress (run c {} ops) coin = .nil ↔ (run c {} ops).nTried + (run c {} ops).nNew = 0) :=
+  C18_addrmgr_get_returns _ (C18_addrmgr_reachable_inv c ops) coin
+
 private def acfg : Cfg := { banT := 24, maxRefs := 8 }
 
 /-- **Counterexample for the code before commit 82e7a0f** (`removeTried false`): an address is
@@ -436,26 +467,35 @@ added, connected (`Good`), banned. The removal decrements `refs` from 0 to −1 
 `nTried--` and the index deletion: `nTried = 1` with every tried bucket empty — `GetAddress` enters
 the tried search (whatever its coin says) and never leaves it. -/
 theorem C18_addrmgr_before_fix :
-    let s := ban false acfg (good (add acfg {} 0 (some 5)) 0 3) 0
+    let s := ban false acfg (good (add acfg {} 0 5 true) 0 3) 0
     s.nTried = 1 ∧ s.triedB = [] ∧ s.nNew = 0 ∧ find s 0 = some { refs := -1, tried := true } ∧
     getAddress s true = .hang ∧ getAddress s false = .hang := by
+  decide
+
+/-- **The old removal does not keep the invariant** (so none of the above holds for the code before 82e7a0f): a state that
+satisfies the invariant — one address, added and connected — is taken out of it by `ban false`. -/
+theorem C18_addrmgr_old_removal_not_invariant : ¬ ∀ (c : Cfg) (s : St) (a : Nat), Inv s → Inv (ban false c s a) := by
+  intro h
+  have hs : Inv (good (add acfg {} 0 5 true) 0 3) := inv_good 0 3 (inv_add acfg 0 5 true inv_init)
+  have hb := (h acfg _ 0 hs).tried
+  revert hb
   decide
 
 /-- the same history on the code of today: nothing is left, `GetAddress` answers `nil`; a fresh
 address added afterwards is handed out. -/
 theorem C18_addrmgr_after_fix :
-    let s := run acfg {} [.add 0 (some 5), .good 0 3, .ban 0]
+    let s := run acfg {} [.add 0 5 true, .good 0 3, .ban 0]
     s.nTried = 0 ∧ s.nNew = 0 ∧ s.index = [] ∧ s.triedB = [] ∧ getAddress s true = .nil ∧
-    getAddress (step acfg s (.add 1 (some 9))) true = .new := by
+    getAddress (step acfg s (.add 1 9 true)) true = .new := by
   decide
 
 -- non-vacuity of `Inv`: a state with a tried and a twice-referenced new address
-example : (run acfg {} [.add 0 (some 5), .good 0 3, .add 1 (some 9), .add 1 (some 11)]).nTried = 1 ∧
-    (run acfg {} [.add 0 (some 5), .good 0 3, .add 1 (some 9), .add 1 (some 11)]).nNew = 1 ∧
-    find (run acfg {} [.add 0 (some 5), .good 0 3, .add 1 (some 9), .add 1 (some 11)]) 1 = some { refs := 2, tried := false } := by decide
+example : (run acfg {} [.add 0 5 true, .good 0 3, .add 1 9 true, .add 1 11 true]).nTried = 1 ∧
+    (run acfg {} [.add 0 5 true, .good 0 3, .add 1 9 true, .add 1 11 true]).nNew = 1 ∧
+    find (run acfg {} [.add 0 5 true, .good 0 3, .add 1 9 true, .add 1 11 true]) 1 = some { refs := 2, tried := false } := by decide
 -- a ban is honoured by `add` until it ends
-example : (run acfg {} [.ban 2, .clock 23, .add 2 (some 1)]).index = [] ∧
-    (run acfg {} [.ban 2, .clock 24, .add 2 (some 1)]).nNew = 1 := by decide
+example : (run acfg {} [.ban 2, .clock 23, .add 2 1 true]).index = [] ∧
+    (run acfg {} [.ban 2, .clock 24, .add 2 1 true]).nNew = 1 := by decide
 
 end addrmgr
 
